@@ -307,6 +307,48 @@ class SymInt:
             return r
         return NotImplemented
 
+    # -- shifts and bit operations (concrete shift counts; bit operations through 64-bit vectors) ----------
+    def __lshift__(self, k):
+        if isinstance(k, SymInt):
+            k = engine.cur().concretize(k.t)
+        if isinstance(k, int) and 0 <= k <= 256:
+            return self * (1 << k)
+        return NotImplemented
+
+    def __rlshift__(self, o):
+        k = engine.cur().concretize(self.t)
+        return o << k
+
+    def __rshift__(self, k):
+        if isinstance(k, SymInt):
+            k = engine.cur().concretize(k.t)
+        if isinstance(k, int) and 0 <= k <= 256:
+            return self // (1 << k)
+        return NotImplemented
+
+    def _bitop(self, o, fn):
+        c = self._coerce(o)
+        if c is None:
+            return NotImplemented
+        # two's complement over 128 bits covers every magnitude used here
+        a, b = z3.Int2BV(self.t, 128), z3.Int2BV(zint(c), 128)
+        return SymInt(z3.BV2Int(fn(a, b), True))
+
+    def __or__(self, o):
+        return self._bitop(o, lambda a, b: a | b)
+
+    __ror__ = __or__
+
+    def __and__(self, o):
+        return self._bitop(o, lambda a, b: a & b)
+
+    __rand__ = __and__
+
+    def __xor__(self, o):
+        return self._bitop(o, lambda a, b: a ^ b)
+
+    __rxor__ = __xor__
+
     # -- comparisons ---------------------------------------------------------------------------
     def _cmp(self, o, op):
         c = self._coerce(o)
